@@ -1,0 +1,76 @@
+//! Read-only verification accessor (feature `verif-hooks` only; not part of the public API).
+//!
+//! Builds a zone from TZif bytes, from a POSIX TZ rule or the way `Local` does from the value
+//! of `TZ`, and exposes the two lookups with the reader's `Ok`/`Err` visible. Everything here
+//! calls the crate's own reader and lookups; nothing is re-implemented.
+
+use super::rule::{AlternateTime, TransitionRule};
+use super::timezone::{LocalTimeType, TimeZone};
+use crate::{MappedLocalTime, NaiveDateTime};
+
+/// A local time type as seen from outside: UTC offset in seconds, DST flag, abbreviation.
+pub type TypeView = (i32, bool, Option<String>);
+
+fn view(ltt: &LocalTimeType) -> TypeView {
+    (ltt.offset(), ltt.is_dst(), ltt.verif_name().map(str::to_owned))
+}
+
+/// A zone built by the crate's own reader.
+#[derive(Clone, Debug, PartialEq, Eq)]
+pub struct Zone(TimeZone);
+
+impl Zone {
+    /// Parse the contents of a TZif file.
+    pub fn from_tzif(bytes: &[u8]) -> Result<Zone, String> {
+        TimeZone::from_tz_data(bytes).map(Zone).map_err(|e| format!("{:?}", e))
+    }
+
+    /// Parse a POSIX TZ rule (`extended`: accept the TZif v3 footer extensions) and build the
+    /// zone exactly as the tail of `TimeZone::from_posix_tz` does.
+    pub fn from_posix_rule(tz: &[u8], extended: bool) -> Result<Zone, String> {
+        let rule = TransitionRule::from_tz_string(tz, extended).map_err(|e| format!("{:?}", e))?;
+        TimeZone::new(
+            vec![],
+            match rule {
+                TransitionRule::Fixed(local_time_type) => vec![local_time_type],
+                TransitionRule::Alternate(AlternateTime { std, dst, .. }) => vec![std, dst],
+            },
+            vec![],
+            Some(rule),
+        )
+        .map(Zone)
+        .map_err(|e| format!("{:?}", e))
+    }
+
+    /// `TimeZone::local(env_tz)`: the zone `Local` would load for this value of `TZ`
+    /// (file lookups go through the seam of the calling thread), without any fallback.
+    pub fn local(env_tz: Option<&str>) -> Result<Zone, String> {
+        TimeZone::local(env_tz).map(Zone).map_err(|e| format!("{:?}", e))
+    }
+
+    /// The UTC zone `Local` falls back to.
+    pub fn utc() -> Zone {
+        Zone(TimeZone::utc())
+    }
+
+    /// Local time type in force at a Unix time.
+    pub fn offset_at(&self, unix_time: i64) -> Result<TypeView, String> {
+        self.0.find_local_time_type(unix_time).map(view).map_err(|e| format!("{:?}", e))
+    }
+
+    /// Local time types a wall-clock time maps to.
+    pub fn offsets_for_local(
+        &self,
+        local: NaiveDateTime,
+    ) -> Result<MappedLocalTime<TypeView>, String> {
+        self.0
+            .find_local_time_type_from_local(local)
+            .map(|r| r.map(|ltt| view(&ltt)))
+            .map_err(|e| format!("{:?}", e))
+    }
+
+    /// `{:?}` of the zone: transitions, local time types, leap seconds, extra rule.
+    pub fn debug(&self) -> String {
+        format!("{:?}", self.0)
+    }
+}
